@@ -31,6 +31,158 @@ CHECKS = {
         design='6/C01'),
 }
 
+CHECKS['C01']['text'] = (
+    'Theorems (any commutative ring, any size/regime, any buffer ids i.e. all 5 identity-alias patterns, all scalars, all '
+    'contents): C01.lincomb_correct / _frame / _out_independent for the dispatch program EXTRACTED from _lincomb_impl on this '
+    'run; C01.elem_op_correct and C01.ipow_correct: every LinearSpaceElement operator (+,-,*,/ with element or scalar, '
+    'reflected and in-place forms, neg, pos/copy, assign, set_zero, **n by the code\'s even/odd recursion) modelled statement '
+    'for statement over a _lincomb that satisfies the spec yields the entry-wise formula, returns the right object and '
+    'touches nothing else; C01.plincomb_correct: ProductSpace._lincomb is correct component-wise for any number of '
+    '(nested, flattened) parts under identity aliasing. Tie: translator + exact correspondence of space.lincomb, the operators '
+    'and product-space lincomb against the Lean executions. Partial: NumpyTensor/DiscretizedSpace overrides of __ipow__/copy '
+    'and array-like operand coercion are tied by correspondence/oracle only.')
+
+CHECKS.update({
+'C13': dict(
+    technique='Lean 4 proof over AST-extracted stencil tables + exact differential correspondence',
+    text='21 theorems over any field (incl. C) and ALL axis lengths: fd_eq_stencil_ext (model output = textbook stencil on the '
+         'padded array / dx for constant/symmetric/periodic/order0/order1 x 3 methods and central order2; order2_edge_rule for '
+         'the documented 2nd-order edges), size_ok_iff, fd_adjoint_transpose/fd_adjoint_entry (all 30 method x pad leaves incl. '
+         'adjoint modes: sum g(Df) = -sum f(D\'g), via summation by parts + a verified finite corner checker decided over the '
+         'GENERATED tables), adj_involutive (decide on extracted dicts), fd_affine/pd_affine (derivative of constant padding = '
+         'zero padding), pd_adjoint, grad_div_adjoint, div_grad_adjoint, laplacian_selfadjoint (ndim<=3, any shape), '
+         'fd_adjoint_hermitian. Interior bands, all boundary leaves, guards, _ADJ_METHOD/_ADJ_PADDING, supported lists and the '
+         'text of the operator _call/adjoint/derivative bodies are regenerated from diff_ops.py every run.',
+    note='translator tools/extract/finite_diff.py (AST grammar; anything outside it is a broken obligation) and exact '
+         'correspondence of full matrices/offsets of finite_diff and of the four operator classes on 1-3 d uniform_discr; NumPy '
+         'swapaxes/slicing identified with line-wise action (tested); exact arithmetic; "symmetric" = edge replication as coded; '
+         'order1/order2 edges follow the documented edge-order rule (a literal forward/backward stencil reading of order2 is '
+         'proved NOT to hold: order2_forward_edge_differs); ndim<=3; uniform weighting.',
+    design='6/C13'),
+'C14': dict(
+    technique='Lean 4 proof over an executable rational model of partition/grid/domain/normalize + differential correspondence',
+    text='24 theorems over Rat, all n: wf_iff_valid, bdry_ends, bdry_strict_mono, node_in_own_cell, cell_size_is_width, '
+         'cell_sizes_sum_partial (n>=2; n=1 is finding C14-F2 with proved counterexample), bdry_fraction_formula, '
+         'uniform_node_placement, uniform_side_times_count (all 4 flag combos), index_correct (+floating index), index_outside, '
+         'getitem_slice/getitem_cells/getitem_int/getitem_full, squeeze_cells, insert_append_cells, nonuniform_limits, '
+         'uniform_spec_agree, uniform_flags_agree_partial (flat 1-d flag pair is finding C14-F1 with counterexample). '
+         'byaxis, list indexing, squeeze(axis), uniform_partition_fromgrid: modelled and tied, not proved.',
+    note='hand-written model tied by exact (dyadic) / 1e-9 (decimal) correspondence over 11 operations, 12k cases quick / 150k '
+         'thorough, dims 1-3, all flags, negative/stepped/ellipsis/list indices; np.searchsorted/linspace/slicing modelled by '
+         'their specifications; isclose tolerances and the 1e-5 integrality epsilon are parameters.',
+    design='6/C14'),
+'C18': dict(
+    technique='Lean 4 proofs over an executable model + generated pad-mode table + differential correspondence',
+    text='31 theorems: reciprocal/real grid algebra for all n, parities, shifts (recip_grid_uniform, recip_halfcomplex_prefix, '
+         'recip_real_roundtrip, halfcomplex_shape_roundtrip, interp_freqs_match_grid); over any field with a primitive n-th root '
+         'of unity: dft_inverse (coded sign/normalisation), dft_backends_agree (numpy vs pyfftw branches), dft_hermitian, '
+         'halfcomplex_roundtrip; phase_factorisation (exponents mod 2), ft_inverse_factors; wavelets: ravel_unravel_id, crop_rule, '
+         'pad_table_sound/documented (decide over the generated table), wavelet_adjoint_scale (given an isometric W). Six defect '
+         'classes (F18a-f) are excluded from the claims by _partial theorems with proved counterexamples and reproduced every '
+         'run as known findings. Not proved: Gaussian convergence (measured), PyWavelets PR/orthogonality (assumed, measured), '
+         'n-d composition (fibre-wise, tested).',
+    note='translator tools/extract/waveletpad.py; numpy.fft/pyFFTW as naive root-of-unity sums with documented plan '
+         'normalisation and PyWavelets wavedecn/waverecn/ravel as parameters (compared on every case); exact for axis lengths '
+         '1/2/4 with integer data, tolerance 1e-9*scale (float64) / 2e-4 (float32) elsewhere; reciprocal-grid and fmin/fmax tables '
+         'hand-modelled and tied by correspondence.',
+    design='6/C18'),
+'C20': dict(
+    technique='Lean 4 proof on an executable descriptor model; dtype tables by translator; all-pairs correspondence on a live zoo',
+    text='28 theorems, unbounded in shape/axes/nesting: eq equivalence for weightings, interval products (equal ndim), grids, '
+         'partitions, tensor/discretized/nested product spaces (space_eq_equivalence incl. cross-class pairs), eq => equal hash '
+         '(partial where the code is defective: C20-F1..F3 with proved counterexamples), mem_iff_space_eq, element_idem, '
+         'element_values/shape errors, astype_descr, real_complex_involution (re-checked against the GENERATED dtype tables), '
+         'byaxis_descr, pspace_index_descr_partial (C20-F4), composite_eq_equivalence_partial. Tested only: frozenset-hash '
+         'consistency of SetUnion/SetIntersection/FiniteSet, FiniteSet equivalence, element indexing vs asarray, byaxis_in.',
+    note='translator tools/extract/dtypes.py (TYPE_MAP_R2C/C2R, is_*_dtype truth tables); harness `describe` reads live '
+         'attributes into descriptors (trusted); ~350 live objects, all ~120k ordered pairs and all triples (transitivity by '
+         'boolean matrix product) compared; NaN excluded; hashes compared with array contents fixed.',
+    design='6/C20'),
+'C19': dict(
+    technique='Lean 4 proofs over commutative rings / ordered fields of a polynomial (cos,sin) model + differential correspondence',
+    text='29 theorems for all parameters under c^2+s^2=1 and unit axes: rot_orthonormal_2d/_euler/_axis (R^T R = 1, det 1), '
+         'rot_axis_fixed, from_to_maps, circular/curved detector alignment, det_point_decomp, src_det_consistent, normalised_unit, '
+         'parallel_dir_const, parallel_dir_orth_axes, det_axes_rotated, fan_radii/cone_radii (incl. helical offset), '
+         'frommatrix_initial/_consistent(_2d), factory_covers_volume_parallel, fan_det_coord, vectorised_shape_*; partial with '
+         'proved counterexamples where the code is defective (getitem with translation F19a/b, fan/cone factory coverage F19c, '
+         'shape logic F19d/e).',
+    note='no translator; model fed with exact rationals of the stored attributes and of the float cos/sin of the real objects; '
+         'correspondence on the general stream 1e-12*(1+scale); einsum/broadcast/squeeze, transform_system, collinear branches of '
+         'rotation_matrix_from_to and factory coverage of volume corners are oracle-tested only.',
+    design='6/C19'),
+'C08': dict(
+    technique='Lean 4 theorems on Fenchel-Young pairs and the coded conjugation rules + differential correspondence + oracles',
+    text='Theorems (any real inner-product space, i.e. any weighting): each convex_conj rule of the derived classes preserves '
+         'Fenchel-Young with equality on the subgradient relation (left/right scalar, scalar sum, translation, linear '
+         'perturbation, right vector, separable, inf-conv inequality); moreau_identity + resolvent_unique; built-in pairs L2^2, '
+         'L2, Constant/IndicatorZero, L1 / Linf-ball indicator (weighted lists, all n), QuadraticForm with the factor 1/4; '
+         'conj_sound_partial: tree-level soundness on a fragment (QuadraticForm-with-operator excluded: finding F5 with proved '
+         'counterexample). KL, Lp, group norms, SeparableSum, Huber pair and f**=f: correspondence/oracle only.',
+    note='hand-written expression model (Model/Functionals.lean) tied by serialising live ODL functionals (class+attributes) and '
+         'comparing f(x), f*(y), f**(x) exactly on the dyadic stream / 1e-9 on the general stream over 9 spaces (weighted rn, '
+         'uniform_discr with cell volume != 1, product spaces); np.linalg.inv checked exactly by the driver.',
+    design='6/C08'),
+'C09': dict(
+    technique='Lean 4 theorems (Mathlib HasGradientAt) over the expression model of functional.py + correspondence + FD/Lipschitz oracles',
+    text='Theorems for all expression trees and every real Hilbert space: grad_sound (the coded gradient is the gradient of the '
+         'coded value under stated side conditions, by induction with chain/product/quotient rules), derivative_eq_inner_grad, '
+         'grad_comp, grad_moreau_envelope, lipschitz_sound (the propagated grad_lipschitz is a valid bound whenever finite: '
+         '|s|L, |s|^2 L, L1+L2, L, L+2|a|, 1/gamma, 2, 0), huber_lipschitz on weighted lists, and lip_right_scalar_abs_fails (the '
+         'pre-fix constant is not a bound). Partial: derivatives of L1/L2-norm/Huber/KL leaf values are hypotheses, tested by '
+         'finite differences only.',
+    note='same serialiser/driver as C08: value, gradient, derivative and grad_lipschitz of live functionals compared with the '
+         'model; oracle: central differences (h=2^-k, Richardson) and random point pairs for the Lipschitz ratio.',
+    design='6/C09'),
+'C05': dict(
+    technique='Lean 4 proof over an executable adjoint model + exact full-matrix oracle on the real code',
+    text='Proved for all sizes, per-entry weights, fields with involution and unbounded tree depth: adj_sound (the adjoint rules '
+         'of Sum, Comp, Left/RightScalarMult, Left/RightVectorMult, FunctionalLeftVectorMult, ProductSpaceOperator, Broadcast, '
+         'Reduction, Diagonal preserve <Ax,y>_ran = <x,A*y>_dom; real-part pairing for mixed real/complex trees), leaf lemmas '
+         '(Scaling, Zero, Multiply incl. field variants, InnerProduct, Matrix with equal const weights, PointwiseInner/Adjoint, '
+         'Sampling<->WeightedSumSampling with duplicates, Flattening), adj_type, adj_adj_partial; sharp negatives '
+         '(matrix_adj_fails etc.) for the recorded findings. Opaque leaves (finite differences, Resizing, Fourier, wavelets, '
+         'RealPart/ImagPart/ComplexEmbedding, ComponentProjection): decided exactly on small spaces by the full-matrix oracle '
+         'G_ran*A = (A*)^H*G_dom, not by theorem.',
+    note='hand-written model; trusted: element flattening and unit-vector extraction, NumPy/FFT/PyWavelets kernels; dyadic '
+         'entries so the matrix oracle is exact (1e-9 for Fourier/wavelets); Resampling, RayTransform, LinDeform* exempt.',
+    design='6/C05'),
+'C06': dict(
+    technique='Lean 4 proof over dual numbers + translator of the ufunc derivative table + differential test + central-difference oracle',
+    text='Theorems for all trees/depths/dimensions/commutative rings: deriv_sound_poly (running the tree on x + eps d over '
+         'R[eps]/(eps^2) gives <op(x), derivative(x)(d)>: pins every inner point, scalar and block slice of the coded chain/'
+         'product/sum rules over 24 constructors), deriv_is_linear, flagged_linear_is_linear, deriv_linear, deriv_affine, '
+         'central_diff_poly_partial (no first-order error term: O(h^2) for the polynomial world), ufunc_table_sound (every '
+         'EXTRACTED (f,f\') pair is HasDerivAt in Mathlib) and ufunc_op_hasFDerivAt on R^n. Not proved: general HasFDerivAt '
+         'soundness and analytic leaf lemmas (norms, moduli, PointwiseNorm): covered by the sampled central-difference oracle.',
+    note='translator tools/extract/ufunc_deriv.py; exact differential stream of random typed trees built with the real '
+         'constructors on integer data (magnitudes < 2^50); zoo of 40 classes implementing derivative checked by central '
+         'differences h=2^-4..2^-14 with Richardson rate; LinDeform* exempt.',
+    design='6/C06'),
+'C03': dict(
+    technique='Lean 4 proof by structural induction over a buffer-language model of Operator.__call__ + correspondence + introspected zoo',
+    text='Theorems (any commutative ring, unbounded depth): call_in_place, call_out_of_place, call_protocol_partial, '
+         'out_content_irrelevant, call_casts_input, call_rejects (domain/range/type error before any write) for expression trees '
+         'over leaves satisfying the leaf contract, the three _call signature classes and both default bridges. Partial: the '
+         'contract demands a fresh out-of-place result and ring scalars exclude NaN/inf junk; both exclusions are witnessed by '
+         'real defects (C03-F1, C03-F2) with proved counterexamples. 198 of 216 introspected classes are opaque leaves: their '
+         'contract is established on sampled inputs only (test).',
+    note='hand-written model (Model/Call.lean) tied by a dispatch stream (~300 synthetic operators through the real '
+         'Operator.__call__) and a tree stream over modelled leaves; product-space combinators, FunctionalLeftVectorMult and '
+         'user temporaries are zoo-tested only; in-place vs out-of-place compared at 1e-9 relative.',
+    design='6/C03'),
+'C10': dict(
+    technique='Lean 4 proof by symbolic execution of statement-for-statement straight-line programs + correspondence',
+    text='alias_safe: every _call body of proximal_operators.py (13 proximal classes with all g/sigma/lower/upper branches and '
+         'copy guards), ProximalSimplex/Sum and Scaling/LinComb/Multiply/Constant/Zero/Power is alias safe for all inputs and '
+         'all element-wise functions (alias_safe_ieee: with no algebraic hypothesis for all but ProximalL2); '
+         'out_junk_independent, frame, alias_safe_tree (lifted through the C03 combinators), l1_without_guard_fails '
+         '(sensitivity). Calculus wrappers, combine_proximals and .proximal of 37 functionals: oracle-tested.',
+    note='hand-written programs tied by running real non-aliased and aliased calls and the two model runs at Float on all '
+         'buffers; the set of in-place Operator classes is read from the module AST and checked against the model table (an '
+         'uncovered class breaks the obligation); assumes lincomb meets its C01 spec.',
+    design='6/C10'),
+})
+
 NOT_YET = {}
 
 
